@@ -103,6 +103,39 @@ def _replay(ck, beh, trace):
     return total
 
 
+def _random_scenarios(seed, n, path, max_rounds):
+    """Seeded sample of the full parameter product (the model's profile sets
+    cover it by classes; this draws from all combinations, with split points
+    anywhere).  No model prediction is attached; the monitor judges."""
+    import random
+    rnd = random.Random(seed)
+
+    def params(first):
+        p = dict(mode=rnd.choice(["sync", "async"]), kind="resp", status=rnd.choice([101] * 6 + [200, 400]),
+                 upg=rnd.choice(["ok"] * 6 + ["missing", "wrong"]), acc=rnd.choice(["ok"] * 6 + ["wrong", "missing"]),
+                 ord=rnd.choice(["canon", "rev"]), hcase=rnd.choice(["canon", "lower", "upper"]),
+                 ws=rnd.choice(["canon", "none", "wide", "tab"]), xh=rnd.choice(["none", "extra", "clen", "noconn"]),
+                 long=rnd.choice([0, 0, 0, 1]), cuts=[], piggy=rnd.choice(["none", "whole", "partial", "two", "big"]),
+                 closept=rnd.choice(["none"] * 8 + ["prereq", "noresp", "midresp", "afterresp"]),
+                 tail=rnd.choice(["none"] * 4 + ["ping", "close"]), xreq=rnd.choice([0, 0, 1, 2, 3]))
+        if rnd.random() < 0.04:
+            p["kind"] = "badurl"
+        if p["closept"] in ("midresp", "afterresp"):
+            p["piggy"] = "none"
+        k = rnd.choice([0, 1, 1, 2, 2, 3, 4])
+        if p["closept"] == "midresp" and k == 0:
+            k = 1
+        offs = sorted(set(rnd.randrange(0, 1000) for _ in range(k)))
+        p["cuts"] = [{"cls": "frac", "off": o} for o in offs]
+        return p
+
+    with open(path, "w") as f:
+        for _ in range(n):
+            rounds = rnd.choice([1, 1, 2, 3][:max_rounds + 1])
+            f.write(json.dumps([{"p": params(k == 0), "r": 0, "d": 0, "pred": []} for k in range(rounds)]) + "\n")
+    return n
+
+
 def _validate(ck, sw, name, beh, label):
     trace = os.path.join(ck.work, "trace_%s.ndjson" % name)
     summ = _replay(ck, beh, trace)
@@ -178,6 +211,11 @@ def run(ck):
 
     # 3. replay on the real code, validate
     _validate(ck, sw, "cover", beh, "round cover, %s" % ck.tier)
+
+    # 4. seeded sample of the full parameter product (split points anywhere)
+    rnd = os.path.join(ck.work, "random.jsonl")
+    _random_scenarios(ck.seed, 20000 if thorough else 1500, rnd, rounds)
+    _validate(ck, sw, "random", rnd, "seeded sample, seed %d" % ck.seed)
     ck.cov["exhaustive"] = True
     ck.assumptions += [
         "the response/frames byte stream is modelled by positions with the real lengths of the real header lines; payload bytes are generator output matched by the driver",
